@@ -44,6 +44,18 @@ def _strategy(maxW: int):
         shapes = [draw(gen.st_shape(cfg["mpd"], max_order=3, max_numel=120, min_order=0)) for _ in range(npar)]
         T = draw(st.integers(3, 8))
         steps = draw(st.lists(gen.st_step(npar, cfg["gscale"], edits=False), min_size=T, max_size=T))
+        if draw(st.integers(0, 4)) == 0:
+            # class "many blocks": a leading parameter split into > 64 blocks that always has a gradient, followed by small parameters whose
+            # gradients come and go - selector bookkeeping beyond the first few dozen entries
+            cfg["mpd"] = draw(st.sampled_from([1, 2]))
+            cfg["merge"] = False
+            shapes = [draw(st.sampled_from([[70], [36, 2], [9, 8], [130]]))] + [draw(st.sampled_from([[2], [2, 2], [3]])) for _ in range(draw(st.integers(2, 4)))]
+            npar = len(shapes)
+            steps = []
+            for _ in range(T):
+                st_ = draw(gen.st_step(npar, cfg["gscale"], edits=False, allow_absent=False))
+                st_["mask"] = [True] + [draw(st.booleans()) for _ in range(npar - 1)]
+                steps.append(st_)
         return {"flavour": "ddp", "R": W, "S": 1, "G": G, "comm_params": draw(st.booleans()), "comm_dtype": draw(st.sampled_from(["default", "fp32", "fp16", "bf16"])),
                 "cfg": cfg, "shapes": shapes, "pseed": draw(st.integers(0, 10**5)), "steps": steps, "repair": True}
 
